@@ -255,21 +255,15 @@ func RunFlow(f *FuncInfo, spec *FlowSpec) *Flow {
 						continue
 					}
 					ok := true
-					nback := 0
-					for _, pe := range head.Pred {
+					for _, pe := range iterationEndEdges(g, head, e.LoopStmt) {
 						if !fl.Feasible(pe) {
 							continue
 						}
-						if !isBackEdge(g, pe, e.LoopStmt) {
-							continue
-						}
-						nback++
 						if !fl.EdgeIn[pe].Has(fg.Inner) {
 							ok = false
 						}
 					}
-					// for loops with a post statement: back edge comes from the post block
-					if ok && nback >= 0 {
+					if ok {
 						m := fl.forallOK[e.LoopStmt]
 						if m == nil {
 							m = map[Fact]bool{}
@@ -296,6 +290,37 @@ func RunFlow(f *FuncInfo, spec *FlowSpec) *Flow {
 func isLoopExitEdge(e *GEdge) bool {
 	k := e.Kind.String()
 	return k == "RangeDone" || k == "ForDone"
+}
+
+// iterationEndEdges returns the edges on which one iteration of the loop ends:
+// for a `for` with a post statement the edges from the body into the post
+// statement (so that the increment of the induction variable has not yet
+// invalidated facts about this iteration's element), otherwise the back edges
+// into the loop head.
+func iterationEndEdges(g *Graph, head *GNode, loop ast.Stmt) []*GEdge {
+	var out []*GEdge
+	if fs, ok := loop.(*ast.ForStmt); ok && fs.Post != nil {
+		inPost := func(n *GNode) bool {
+			return n.Ast != nil && fs.Post.Pos() <= n.Ast.Pos() && n.Ast.End() <= fs.Post.End()
+		}
+		for _, n := range g.Nodes {
+			if !inPost(n) {
+				continue
+			}
+			for _, pe := range n.Pred {
+				if !inPost(pe.From) {
+					out = append(out, pe)
+				}
+			}
+		}
+		return out
+	}
+	for _, pe := range head.Pred {
+		if isBackEdge(g, pe, loop) {
+			out = append(out, pe)
+		}
+	}
+	return out
 }
 
 // isBackEdge: an edge into the loop head that originates inside the loop statement.
@@ -804,10 +829,48 @@ func (fl *Flow) refine(e *GEdge, st *State) bool {
 	if t != Unknown && (t == True) != e.Val {
 		return false
 	}
-	for _, at := range Implied(cond, e.Val) {
+	for _, at := range fl.implied(cond, e.Val, st) {
 		fl.learn(at, st)
 	}
 	return true
+}
+
+// implied is Implied refined by what is already known: on the false edge of
+// `A && B` with A known true, B must be false (and symmetrically for ||).
+func (fl *Flow) implied(e ast.Expr, val bool, st *State) []Atom {
+	e = ast.Unparen(e)
+	switch x := e.(type) {
+	case *ast.UnaryExpr:
+		if x.Op == token.NOT {
+			return fl.implied(x.X, !val, st)
+		}
+	case *ast.BinaryExpr:
+		if x.Op == token.LAND {
+			if val {
+				return append(fl.implied(x.X, true, st), fl.implied(x.Y, true, st)...)
+			}
+			if eval3(fl.C, fl.Spec, x.X, st, nil) == True {
+				return fl.implied(x.Y, false, st)
+			}
+			if eval3(fl.C, fl.Spec, x.Y, st, nil) == True {
+				return fl.implied(x.X, false, st)
+			}
+			return []Atom{{e, val}}
+		}
+		if x.Op == token.LOR {
+			if !val {
+				return append(fl.implied(x.X, false, st), fl.implied(x.Y, false, st)...)
+			}
+			if eval3(fl.C, fl.Spec, x.X, st, nil) == False {
+				return fl.implied(x.Y, true, st)
+			}
+			if eval3(fl.C, fl.Spec, x.Y, st, nil) == False {
+				return fl.implied(x.X, true, st)
+			}
+			return []Atom{{e, val}}
+		}
+	}
+	return []Atom{{e, val}}
 }
 
 func (fl *Flow) evalTagged(e *GEdge, st *State) Tri {
